@@ -46,6 +46,9 @@ type Plan struct {
 	// StallDen > 0: one yield in StallDen stalls (the clock advances while the
 	// task stands between two statements); time bounds allow for the stalls
 	StallDen int `json:"stall_den,omitempty"`
+	// SharedMutex: the two condition variables share ONE mutex (not-full /
+	// not-empty style)
+	SharedMutex bool `json:"shared_mutex,omitempty"`
 }
 
 type c16 struct{}
@@ -142,6 +145,7 @@ func (c16) Gen(rng *simrt.Rand, tier string, run int) interface{} {
 		for j := range p.Events {
 			p.Events[j].Cond = rng.Intn(2)
 		}
+		p.SharedMutex = rng.Chance(1, 2)
 	}
 	if rng.Chance(1, 3) {
 		p.StallDen = rng.Pick(8, 40, 200)
@@ -289,13 +293,17 @@ func (c16) Exec(pj json.RawMessage, tape *simrt.Tape, keepLog bool) harness.RunO
 	callsDone := 0
 	res := s.Run(func() {
 		var mus [2]simsync.Mutex
-		conds := [2]*simsync.Cond{simsync.NewCond(&mus[0]), simsync.NewCond(&mus[1])}
+		muOf := [2]*simsync.Mutex{&mus[0], &mus[1]}
+		if p.SharedMutex {
+			muOf[1] = &mus[0]
+		}
+		conds := [2]*simsync.Cond{simsync.NewCond(muOf[0]), simsync.NewCond(muOf[1])}
 		finished := false
 		for _, e := range p.Events {
 			e := e
 			simrt.GoNamed("event-"+e.Kind, func() {
 				simrt.Sleep(e.AtUs * 1000)
-				mu, cond := &mus[e.Cond&1], conds[e.Cond&1]
+				mu, cond := muOf[e.Cond&1], conds[e.Cond&1]
 				mu.Lock()
 				if finished {
 					mu.Unlock()
@@ -326,7 +334,7 @@ func (c16) Exec(pj json.RawMessage, tape *simrt.Tape, keepLog bool) harness.RunO
 			if c.GapUs > 0 {
 				simrt.Sleep(c.GapUs * 1000)
 			}
-			mu, cond := &mus[c.Cond&1], conds[c.Cond&1]
+			mu, cond := muOf[c.Cond&1], conds[c.Cond&1]
 			mu.Lock()
 			add("entry", i, c.Cond&1)
 			func() {
@@ -352,19 +360,17 @@ func (c16) Exec(pj json.RawMessage, tape *simrt.Tape, keepLog bool) harness.RunO
 				break
 			}
 		}
-		for c := range mus {
-			mus[c].Lock()
-		}
+		mus[0].Lock()
+		mus[1].Lock()
 		finished = true
-		for c := range mus {
-			mus[c].Unlock()
-		}
+		mus[1].Unlock()
+		mus[0].Unlock()
 		// release whoever still waits (plain waiters, stale helpers)
 		for k := 0; k < 6; k++ {
-			for c := range mus {
-				mus[c].Lock()
+			for c := range conds {
+				muOf[c].Lock()
 				conds[c].Broadcast()
-				mus[c].Unlock()
+				muOf[c].Unlock()
 			}
 			simrt.Sleep(1000)
 		}
